@@ -291,3 +291,16 @@ pub proof fn lemma_cmp_le_trans(a: RevV, b: RevV, c: RevV)
     if lex_lt(z, x) && lex_lt(x, y) { lemma_lex_trans(z, x, y); lemma_lex_asym(z, y); }
     if lex_lt(y, z) && lex_lt(z, x) { lemma_lex_trans(y, z, x); lemma_lex_asym(y, x); }
 }
+
+/// C18 (hash order): `validate` iterates a HashMap in an arbitrary order, yet ANY two validated trees over the same
+/// recorded set expose the same leaves and the same winner
+pub proof fn lemma_validate_order_free(t1: RevisionTree, t2: RevisionTree)
+    requires
+        t1.revisions@ == t2.revisions@, validated_ok(t1), validated_ok(t2),
+        forall|l: Revision| #[trigger] live(t1.revisions@, l) ==> wf(l@),
+    ensures
+        t1.leafs_cache@ =~= t2.leafs_cache@,
+        match (t1.winner_cache, t2.winner_cache) { (Some(a), Some(b)) => a@ == b@, (None, None) => true, _ => false },
+{
+    lemma_winner_unique(t1.revisions@, t1.winner_cache, t2.winner_cache);
+}
